@@ -405,7 +405,7 @@ func runOverlayTest(cfg RunConfig, pkgRel, testFile, testName string, timeoutS i
 	ov, _ := json.Marshal(map[string]any{"Replace": repl})
 	ovf := filepath.Join(tmp, "overlay.json")
 	_ = os.WriteFile(ovf, ov, 0o644)
-	cmd := exec.Command("go", "test", "-overlay", ovf, "-vet=off", "-count=1", "-timeout", fmt.Sprintf("%ds", timeoutS), "-run", "^"+testName+"$", ".")
+	cmd := exec.Command("go", "test", "-v", "-overlay", ovf, "-vet=off", "-count=1", "-timeout", fmt.Sprintf("%ds", timeoutS), "-run", "^"+testName+"$", ".")
 	cmd.Dir = dir
 	cmd.Env = append(os.Environ(), "GOFLAGS=-mod=mod", "GOPROXY=off", "GOSUMDB=off", "GOTOOLCHAIN=local")
 	outb, err := cmd.CombinedOutput()
